@@ -14,7 +14,13 @@ nothing is evaluated:
                         with straight-line control flow at its top level and at most one trailing return -> the helper's
                         statements with parameters renamed to the arguments and locals made unique
 
-  const_getattr         `getattr(x, "name")` -> `x.name`
+  inline_guard_calls    `if not self._stage(a): return` with a helper whose every path ends in `return <constant>` -> the helper's decision
+                        tree with the caller's arms in place of its returns (early returns moved into tail position first)
+
+  namedtuple_rows       `Row(1, "x")` / `Row(code=1, text="x")` of a namedtuple type of the module -> the tuple display `(1, "x")` (field names
+                        kept on the node; `<that display>.text` -> `"x"` once a loop over the table is unrolled)
+  const_getattr         `getattr(x, "name")` -> `x.name`;  statement `setattr(x, "name", v)` -> `x.name = v`;
+                        statement `X.update({"a": u, ..})` -> `X["a"] = u; ..`
 
 A transformation that cannot be applied safely (re-assigned names, break/continue, *args, generators, early returns) leaves the
 code as it is; the rules then see the original spelling."""
@@ -143,7 +149,36 @@ def _top_level_jumps(stmts) -> bool:
 def _literal_seq(node):
     if isinstance(node, (ast.Tuple, ast.List)) and 1 <= len(node.elts) <= 24 and not any(isinstance(e, ast.Starred) for e in node.elts):
         return node
-    return None
+    return _zipped_literal(node)
+
+
+def _zipped_literal(node):
+    """`zip(<literal>, <literal>, ..)` / `enumerate(<literal>[, <int>])` over literal sequences is the literal sequence of the rows
+    (zip stops at the shortest).  The result is a one-shot iterator: a local bound to it may stand for the rows only where it
+    is read once (see _unroll_block)."""
+    if not (isinstance(node, ast.Call) and isinstance(node.func, ast.Name) and not node.keywords and node.args):
+        return None
+    if node.func.id == "zip":
+        seqs = [a if isinstance(a, (ast.Tuple, ast.List)) and not any(isinstance(e, ast.Starred) for e in a.elts) else None for a in node.args]
+        lits = [q for q in seqs if q is not None]
+        # a zipped operand that is not a display but a plain name / attribute / subscript (a list, a slice of one) contributes its
+        # elements by position: zip(("a", "b"), X) pairs "a" with X[0], "b" with X[1] (X is at least as long wherever the code is meant to
+        # pair every name)
+        others = [a for a, q in zip(node.args, seqs) if q is None]
+        if not lits or not all(isinstance(a, (ast.Name, ast.Attribute, ast.Subscript)) and _pure(a) for a in others) or not 1 <= min(len(q.elts) for q in lits) <= 24:
+            return None
+        n = min(len(q.elts) for q in lits)
+        rows = [ast.Tuple(elts=[q.elts[i] if q is not None else ast.Subscript(value=copy.deepcopy(a), slice=ast.Constant(value=i), ctx=ast.Load())
+                                for a, q in zip(node.args, seqs)], ctx=ast.Load()) for i in range(n)]
+    elif node.func.id == "enumerate" and len(node.args) <= 2:
+        q = node.args[0]
+        start = node.args[1].value if len(node.args) == 2 and isinstance(node.args[1], ast.Constant) and type(node.args[1].value) is int else (0 if len(node.args) == 1 else None)
+        if start is None or not isinstance(q, (ast.Tuple, ast.List)) or any(isinstance(e, ast.Starred) for e in q.elts) or not 1 <= len(q.elts) <= 24:
+            return None
+        rows = [ast.Tuple(elts=[ast.Constant(value=start + i), e], ctx=ast.Load()) for i, e in enumerate(q.elts)]
+    else:
+        return None
+    return ast.fix_missing_locations(ast.copy_location(ast.Tuple(elts=rows, ctx=ast.Load()), node))
 
 
 _CONST_CTORS = {"re.compile"}
@@ -233,8 +268,9 @@ def _scan_chain(loop: ast.For, seq):
     return chain
 
 
-def _unroll_block(stmts, lits):
-    """lits: name -> literal sequence node still valid at this point"""
+def _unroll_block(stmts, lits, once=frozenset()):
+    """lits: name -> literal sequence node still valid at this point;  once: the locals read exactly once in the function (only
+    those may stand for a one-shot zip / enumerate iterator)"""
     out = []
     lits = dict(lits)
     for st in stmts:
@@ -250,7 +286,7 @@ def _unroll_block(stmts, lits):
                     if un is None:
                         un = _unroll_one(st, seq)
                     if un is not None:
-                        un = _unroll_block(un, lits)
+                        un = _unroll_block(un, lits, once)
                         for u in un:
                             ast.fix_missing_locations(u)
                         out.extend(un)
@@ -261,17 +297,18 @@ def _unroll_block(stmts, lits):
         for fld in ("body", "orelse", "finalbody"):
             b = getattr(st, fld, None)
             if isinstance(b, list) and b and isinstance(b[0], ast.stmt) and not isinstance(st, (ast.FunctionDef, ast.ClassDef, ast.AsyncFunctionDef)):
-                setattr(st, fld, _unroll_block(b, surviving))
+                setattr(st, fld, _unroll_block(b, surviving, once))
         if isinstance(st, ast.Try):
             for h in st.handlers:
-                h.body = _unroll_block(h.body, surviving)
+                h.body = _unroll_block(h.body, surviving, once)
         # update the table
         for k in list(lits):
             if k in inner_st or (set().union(*[_loaded(e) for e in lits[k].elts]) & inner_st):
                 del lits[k]
         if isinstance(st, ast.Assign) and len(st.targets) == 1 and isinstance(st.targets[0], ast.Name):
             seq = _literal_seq(st.value)
-            if seq is not None and all(_pure(e, lambdas=True) for e in seq.elts) and st.targets[0].id not in set().union(*[_loaded(e) for e in seq.elts]):
+            if seq is not None and all(_pure(e, lambdas=True) for e in seq.elts) and st.targets[0].id not in set().union(*[_loaded(e) for e in seq.elts]) \
+                    and (isinstance(st.value, (ast.Tuple, ast.List)) or st.targets[0].id in once):
                 lits[st.targets[0].id] = seq
         out.append(st)
     return out
@@ -285,7 +322,7 @@ def module_tables(mod: ast.Module) -> dict:
         for n in ast.walk(st) if not isinstance(st, (ast.FunctionDef, ast.AsyncFunctionDef, ast.ClassDef)) else []:
             if isinstance(n, ast.Name) and isinstance(n.ctx, (ast.Store, ast.Del)):
                 count[n.id] = count.get(n.id, 0) + 1
-        if isinstance(st, ast.Assign) and len(st.targets) == 1 and isinstance(st.targets[0], ast.Name):
+        if isinstance(st, ast.Assign) and len(st.targets) == 1 and isinstance(st.targets[0], ast.Name) and isinstance(st.value, (ast.Tuple, ast.List)):
             seq = _literal_seq(st.value)
             if seq is not None and all(_pure(e) for e in seq.elts):
                 cand[st.targets[0].id] = seq
@@ -315,7 +352,11 @@ def unroll_static_loops(func, tables: dict | None = None):
         own = {p.arg for p in a.posonlyargs + a.args + a.kwonlyargs} | ({a.vararg.arg} if a.vararg else set()) | ({a.kwarg.arg} if a.kwarg else set()) \
             | _stored(func.body)
         lits = {k: v for k, v in tables.items() if k not in own and not (set().union(*[_loaded(e) for e in v.elts]) & own)}
-    func.body = _unroll_block(func.body, lits)
+    reads = {}
+    for n in ast.walk(func):
+        if isinstance(n, ast.Name) and isinstance(n.ctx, ast.Load):
+            reads[n.id] = reads.get(n.id, 0) + 1
+    func.body = _unroll_block(func.body, lits, frozenset(k for k, c in reads.items() if c == 1))
     return func
 
 
@@ -606,6 +647,158 @@ def inline_stmt_calls(func, resolve, max_depth: int = 3):
     return func
 
 
+# ------------------------------------------------------------------------------------- guard helpers (stages that report success)
+
+def _has_return(node) -> bool:
+    """a `return` that belongs to the function `node` is a statement of (not to a def / lambda nested in it)"""
+    todo = [node]
+    while todo:
+        n = todo.pop()
+        if isinstance(n, ast.Return):
+            return True
+        for ch in ast.iter_child_nodes(n):
+            if not isinstance(ch, (ast.FunctionDef, ast.AsyncFunctionDef, ast.Lambda, ast.ClassDef)):
+                todo.append(ch)
+    return False
+
+
+def _tailify(stmts, budget=None):
+    """The statement list with every `return` moved into tail position: the statements that follow an `if` with a returning arm are
+    pushed into its arms that fall through (`if c: ..; return X` + REST  ->  `if c: ..; return X  else: REST`).  None when a return
+    sits inside a loop / with / try (not a decision tree) or the result would grow unreasonably."""
+    budget = budget if budget is not None else [400]
+    out = []
+    for i, st in enumerate(stmts):
+        if isinstance(st, ast.Return):
+            return out + [st]                      # what follows is dead
+        if isinstance(st, ast.If) and _has_return(st):
+            rest = stmts[i + 1:]
+            arms = []
+            for arm in (st.body, st.orelse):
+                falls = not (arm and isinstance(arm[-1], (ast.Return, ast.Raise)))
+                ext = list(arm) + ([copy.deepcopy(r) for r in rest] if falls else [])
+                budget[0] -= sum(1 for r in rest for _ in ast.walk(r)) if falls else 0
+                if budget[0] < 0:
+                    return None
+                t = _tailify(ext, budget)
+                if t is None:
+                    return None
+                arms.append(t)
+            new = ast.If(test=st.test, body=arms[0] or [ast.Pass()], orelse=arms[1])
+            return out + [ast.copy_location(new, st)]
+        if _has_return(st):
+            return None
+        out.append(st)
+    return out
+
+
+def _guard_helper(callee) -> bool:
+    """a helper that reports how it went: every return gives a literal constant (True / False / None ..), no generators / *args"""
+    if not isinstance(callee, ast.FunctionDef):
+        return False
+    a = callee.args
+    if a.vararg or a.kwarg or a.posonlyargs:
+        return False
+    rets = []
+    todo = list(callee.body)
+    while todo:
+        n = todo.pop()
+        if isinstance(n, (ast.Yield, ast.YieldFrom, ast.Global, ast.Nonlocal, ast.Await)):
+            return False
+        if isinstance(n, ast.Return):
+            rets.append(n)
+        for ch in ast.iter_child_nodes(n):
+            if not isinstance(ch, (ast.FunctionDef, ast.AsyncFunctionDef, ast.Lambda, ast.ClassDef)):
+                todo.append(ch)
+    return bool(rets) and all(r.value is None or isinstance(r.value, ast.Constant) for r in rets) \
+        and len({bool(r.value.value) if r.value is not None else False for r in rets}) == 2
+
+
+def inline_guard_calls(func, resolve, max_depth: int = 2):
+    """Stage helpers.  `if [not] self._stage(a): A [else: B]` where the helper ends every path with `return <constant>` is the helper's
+    decision tree with A put where it returns a value that makes the test true and B (or nothing: control falls through to the
+    statements after the `if`) where it makes it false:
+
+        if not self._write_file(path):          target = path / "f"                     (helper body, parameters bound)
+            return                        ->    if exists(target): warn(); return       (`return False` -> A)
+        <next stage>                            else: write(target)                     (`return True`  -> fall through)
+                                                <next stage>
+
+    Early returns of the helper are first moved into tail position (_tailify).  Helpers with a return inside a loop / with / try
+    stay calls."""
+    def expand(stmts, depth):
+        out = []
+        for st in stmts:
+            for fld in ("body", "orelse", "finalbody"):
+                b = getattr(st, fld, None)
+                if isinstance(b, list) and b and isinstance(b[0], ast.stmt) and not isinstance(st, (ast.FunctionDef, ast.ClassDef, ast.AsyncFunctionDef)):
+                    setattr(st, fld, expand(b, depth))
+            if isinstance(st, ast.Try):
+                for h in st.handlers:
+                    h.body = expand(h.body, depth)
+            if isinstance(st, ast.If) and depth < max_depth:
+                neg = isinstance(st.test, ast.UnaryOp) and isinstance(st.test.op, ast.Not)
+                call = st.test.operand if neg else st.test
+                r = resolve(call) if isinstance(call, ast.Call) else None
+                if r is not None and r[0] is not func and _guard_helper(r[0]):
+                    res = _renamed_body(r[0], call, r[1])
+                    tail = _tailify(res[1] + [ast.Return(value=ast.Constant(value=None))]) if res is not None else None
+                    if tail is not None:
+                        def put(ss):
+                            new = []
+                            for s_ in ss:
+                                if isinstance(s_, ast.Return):
+                                    truth = bool(s_.value.value) if s_.value is not None else False
+                                    new.extend(copy.deepcopy(x) for x in (st.body if truth != neg else st.orelse))
+                                elif isinstance(s_, ast.If):
+                                    s_.body = put(s_.body) or [ast.Pass()]
+                                    s_.orelse = put(s_.orelse)
+                                    new.append(s_)
+                                else:
+                                    new.append(s_)
+                            return new
+                        body = res[0] + put(tail)
+                        for b in body:
+                            ast.copy_location(b, st) if not hasattr(b, "lineno") else None
+                            ast.fix_missing_locations(b)
+                        out.extend(expand(body, depth + 1))
+                        continue
+            out.append(st)
+        return out
+    func.body = expand(func.body, 0)
+    return func
+
+
+def _renamed_body(callee, call, recv=None):
+    """(argument bindings, the callee's statements -- returns kept -- with parameters renamed to the arguments and locals made
+    unique), as inline_stmts does for helpers with one trailing return; None when the call cannot be bound"""
+    decs = {ast.unparse(d) for d in callee.decorator_list}
+    if decs - {"staticmethod", "classmethod"}:
+        return None
+    skip = recv is not None and "staticmethod" not in decs
+    given = _bind_args(callee, call, skip)
+    if given is None:
+        return None
+    k = next(_counter)
+    ren, pre = {}, []
+    if skip:
+        if not isinstance(recv, ast.Name):
+            return None
+        ren[callee.args.args[0].arg] = recv.id
+    body = copy.deepcopy(_callee_body(callee))
+    stored = {n.id for b in body for n in ast.walk(b) if isinstance(n, ast.Name) and isinstance(n.ctx, (ast.Store, ast.Del))}
+    for p, e in given.items():
+        if isinstance(e, ast.Name) and p not in stored:
+            ren[p] = e.id
+        else:
+            fresh = f"_inl{k}_{p}"
+            ren[p] = fresh
+            pre.append(ast.Assign(targets=[ast.Name(id=fresh, ctx=ast.Store())], value=copy.deepcopy(e)))
+    for l in {n.id for b in body for n in ast.walk(b) if isinstance(n, ast.Name) and isinstance(n.ctx, ast.Store)} - set(ren):
+        ren[l] = f"_inl{k}_{l}"
+    return pre, [_Rename(ren).visit(b) for b in body]
+
+
 class _ReplaceNode(ast.NodeTransformer):
     def __init__(self, old, new):
         self.old, self.new = old, new
@@ -850,6 +1043,10 @@ def expand_helpers(func, resolve):
         return out
     func.body = prepare(func.body)
     inline_stmt_calls(func, resolve)
+    before = len(func.body), sum(1 for _ in ast.walk(func))
+    inline_guard_calls(func, resolve)
+    if (len(func.body), sum(1 for _ in ast.walk(func))) != before:
+        inline_stmt_calls(func, resolve)          # procedures called from the stages that were put back
     func.body = [_ExprInliner(resolve, func).visit(st) for st in func.body]
     ast.fix_missing_locations(func)
     return func
@@ -892,8 +1089,67 @@ def _drop_dead_tables(func):
     return func
 
 
+# ------------------------------------------------------------------------------------------------- namedtuple rows
+
+def namedtuple_fields(mod: ast.Module) -> dict:
+    """name -> [field, ..] of the namedtuple types a module defines at its top level (or one class level down):
+    `X = namedtuple("X", "a b")` / `("a", "b")` / `["a", "b"]`, `class X(NamedTuple): a: T; b: T`"""
+    out = {}
+
+    def scan(body):
+        for st in body:
+            if isinstance(st, ast.Assign) and len(st.targets) == 1 and isinstance(st.targets[0], ast.Name) and isinstance(st.value, ast.Call) \
+                    and ast.unparse(st.value.func) in ("namedtuple", "collections.namedtuple") and len(st.value.args) == 2 and not st.value.keywords:
+                f = st.value.args[1]
+                if isinstance(f, ast.Constant) and isinstance(f.value, str):
+                    out[st.targets[0].id] = f.value.replace(",", " ").split()
+                elif isinstance(f, (ast.Tuple, ast.List)) and all(isinstance(e, ast.Constant) and isinstance(e.value, str) for e in f.elts):
+                    out[st.targets[0].id] = [e.value for e in f.elts]
+            elif isinstance(st, ast.ClassDef) and any(ast.unparse(b) in ("NamedTuple", "typing.NamedTuple") for b in st.bases):
+                fs = [b.target.id for b in st.body if isinstance(b, ast.AnnAssign) and isinstance(b.target, ast.Name)]
+                if fs and not any(isinstance(b, ast.AnnAssign) and b.value is not None for b in st.body):
+                    out[st.name] = fs
+            elif isinstance(st, ast.ClassDef) and body is mod.body:
+                scan(st.body)
+    scan(mod.body)
+    return out
+
+
+def namedtuple_rows(mod: ast.Module) -> ast.Module:
+    """A namedtuple built with all its fields given -- `Law(1, "a * zeta")`, `Law(code=1, text=..)` -- is the tuple of those values with names
+    for its positions: the call is replaced by the tuple display (tagged with the field names), so that a table of such rows is a
+    literal table (unrolled like any other) and `row.text`, once `row` has been replaced by the row's display, is the element
+    (_ConstGetattr).  Values only: nothing else about the type is used."""
+    fields = namedtuple_fields(mod)
+    if not fields:
+        return mod
+
+    class Rows(ast.NodeTransformer):
+        def visit_Call(self, n):
+            self.generic_visit(n)
+            if isinstance(n.func, ast.Name) and n.func.id in fields and not any(isinstance(a, ast.Starred) for a in n.args) and all(k.arg for k in n.keywords):
+                fs = fields[n.func.id]
+                given = dict(zip(fs, n.args))
+                if len(n.args) <= len(fs) and not any(k.arg in given or k.arg not in fs for k in n.keywords):
+                    given.update({k.arg: k.value for k in n.keywords})
+                    if len(given) == len(fs):
+                        t = ast.copy_location(ast.Tuple(elts=[given[f] for f in fs], ctx=ast.Load()), n)
+                        t._nt_fields = list(fs)
+                        return t
+            return n
+    return ast.fix_missing_locations(Rows().visit(mod))
+
+
 class _ConstGetattr(ast.NodeTransformer):
-    """`getattr(x, "name")` (two arguments, literal identifier) is the attribute access `x.name`"""
+    """`getattr(x, "name")` (two arguments, literal identifier) is the attribute access `x.name`;  `<namedtuple row display>.field` is
+    the element at the field's position"""
+
+    def visit_Attribute(self, n):
+        self.generic_visit(n)
+        fs = getattr(n.value, "_nt_fields", None)
+        if fs and isinstance(n.value, ast.Tuple) and isinstance(n.ctx, ast.Load) and n.attr in fs and len(fs) == len(n.value.elts):
+            return ast.copy_location(n.value.elts[fs.index(n.attr)], n)
+        return n
 
     def visit_Call(self, n):
         self.generic_visit(n)
@@ -901,7 +1157,6 @@ class _ConstGetattr(ast.NodeTransformer):
                 and isinstance(n.args[1], ast.Constant) and isinstance(n.args[1].value, str) and n.args[1].value.isidentifier():
             return ast.copy_location(ast.Attribute(value=n.args[0], attr=n.args[1].value, ctx=ast.Load()), n)
         return n
-
 
     def visit_Expr(self, n):
         # `setattr(x, "name", v)` as a statement (the name may come from a row of an unrolled table) is the store `x.name = v`
@@ -914,8 +1169,58 @@ class _ConstGetattr(ast.NodeTransformer):
         return n
 
 
+class _ConstSetattr(ast.NodeTransformer):
+    """the statement `setattr(x, "name", v)` (literal identifier) is the assignment `x.name = v`"""
+
+    def visit_Expr(self, st):
+        n = st.value
+        if isinstance(n, ast.Call) and isinstance(n.func, ast.Name) and n.func.id == "setattr" and len(n.args) == 3 and not n.keywords \
+                and isinstance(n.args[1], ast.Constant) and isinstance(n.args[1].value, str) and n.args[1].value.isidentifier() \
+                and not any(isinstance(a, ast.Starred) for a in n.args):
+            new = ast.Assign(targets=[ast.Attribute(value=n.args[0], attr=n.args[1].value, ctx=ast.Store())], value=n.args[2])
+            return ast.copy_location(new, st)
+        return st
+
+    visit_FunctionDef = visit_AsyncFunctionDef = visit_ClassDef = visit_Lambda = lambda self, n: n
+
+
+class _UpdateStores(ast.NodeTransformer):
+    """the statement `X.update({"a": u, "b": v})` -- a dict display with literal string keys, X a plain name / attribute / subscript
+    chain that the values do not read -- is the run of element stores `X["a"] = u; X["b"] = v` (a mapping's update assigns key by key,
+    in order)"""
+
+    def visit_Expr(self, st):
+        n = st.value
+        if isinstance(n, ast.Call) and isinstance(n.func, ast.Attribute) and n.func.attr == "update" and len(n.args) == 1 and not n.keywords \
+                and isinstance(n.args[0], ast.Dict) and n.args[0].keys and all(isinstance(k, ast.Constant) and isinstance(k.value, str) for k in n.args[0].keys) \
+                and _pure(n.func.value):
+            base = n.func.value
+            root = base
+            while isinstance(root, (ast.Attribute, ast.Subscript)):
+                root = root.value
+            if isinstance(root, ast.Name) and not any(root.id in _loaded(v) for v in n.args[0].values):
+                out = []
+                for k, v in zip(n.args[0].keys, n.args[0].values):
+                    tgt = ast.Subscript(value=copy.deepcopy(base), slice=k, ctx=ast.Store())
+                    out.append(ast.fix_missing_locations(ast.copy_location(ast.Assign(targets=[tgt], value=v), v)))
+                return out
+        return st
+
+    visit_FunctionDef = visit_AsyncFunctionDef = visit_ClassDef = visit_Lambda = lambda self, n: n
+
+
 def const_getattr(node):
-    return ast.fix_missing_locations(_ConstGetattr().visit(node))
+    """getattr / setattr with a literal attribute name are the attribute read / the attribute assignment; a mapping update with a
+    literal display is the run of element stores"""
+    node = _ConstGetattr().visit(node)
+    if isinstance(node, (ast.FunctionDef, ast.AsyncFunctionDef)):
+        for tr in (_ConstSetattr(), _UpdateStores()):
+            body = []
+            for st in node.body:
+                r = tr.visit(st)
+                body.extend(r if isinstance(r, list) else [r])
+            node.body = body
+    return ast.fix_missing_locations(node)
 
 
 # ----------------------------------------------------------------------------------------------------- closure dispatch
